@@ -88,6 +88,30 @@ func rulePair(p *Prog, r *Report) {
 						continue
 					}
 				}
+				// the value handed on from a callee whose own error is non-nil here: that callee returned nil
+				// with it (same rule), so nil is what escapes
+				if errNonNil {
+					if ex, ok := v.(*ssa.Extract); ok && ex.Index == 0 {
+						if c, ok := ex.Tuple.(*ssa.Call); ok {
+							var cerr ssa.Value
+							for _, ref := range *c.Referrers() {
+								if e2, ok := ref.(*ssa.Extract); ok && e2.Index == 1 {
+									cerr = e2
+								}
+							}
+							good := cerr != nil && bf.nonNilAt(blk, cerr)
+							for _, cn := range p.calleeNames(c) {
+								if cn.fn == nil || !inSet[cn.fn] && !(cn.fn.Origin() != nil && inSet[cn.fn.Origin()]) {
+									good = false
+								}
+							}
+							if good {
+								r.Ok("R-PAIR", key, pos, "the value is the result of a callee that failed on this path (nil by the same rule), returned with a non-nil error")
+								continue
+							}
+						}
+					}
+				}
 				why := "returns a value together with a possibly non-nil error, or a nil value with a nil error"
 				if errNil {
 					why = "nil error but the value is not provably non-nil"
